@@ -137,6 +137,10 @@ func (r *c07Runner) exec(client, seq int, op c07Op, rqHook func(*s3x.Req), o s3x
 		r.etags[etagOf(body)] = id
 		r.mu.Unlock()
 		rq = &s3x.Req{Method: "PUT", Path: "/bk0/mp", Query: s3x.Q("partNumber", fmt.Sprint(op.Part), "uploadId", r.upID), Body: body}
+	case "lparts":
+		rq = &s3x.Req{Method: "GET", Path: "/bk0/mp", Query: s3x.Q("uploadId", r.upID)}
+	case "luploads":
+		rq = &s3x.Req{Method: "GET", Path: "/bk0", Query: s3x.Q("uploads", s3x.Bare)}
 	case "delver-all":
 		// delete every version of the key that exists right now, by ID
 		ev.Call = r.now()
@@ -234,6 +238,35 @@ func (r *c07Runner) exec(client, seq int, op c07Op, rqHook func(*s3x.Req), o s3x
 				for _, c := range d.Contents {
 					ev.Listed[c.Key] = c.ETag
 				}
+			}
+		}
+	case "lparts":
+		// every listed part is one whose upload has at least begun: its ETag is that of a body
+		// some client sent for this part number
+		if resp.Status == 200 {
+			var d s3x.ListPartsDoc
+			if err := resp.XML(&d); err != nil {
+				ev.Note = "ListParts: " + err.Error()
+			}
+			for i, p := range d.Parts {
+				r.mu.Lock()
+				_, known := r.etags[p.ETag]
+				r.mu.Unlock()
+				if !known {
+					ev.Note = fmt.Sprintf("ListParts shows part %d with ETag %s, which is not the ETag of any body sent", p.PartNumber, p.ETag)
+				}
+				if i > 0 && d.Parts[i-1].PartNumber >= p.PartNumber {
+					ev.Note = fmt.Sprintf("ListParts shows part %d after part %d", p.PartNumber, d.Parts[i-1].PartNumber)
+				}
+			}
+		}
+	case "luploads":
+		if resp.Status == 200 {
+			var d s3x.ListUploadsDoc
+			if err := resp.XML(&d); err != nil {
+				ev.Note = "ListMultipartUploads: " + err.Error()
+			} else if len(d.Uploads) != 1 || d.Uploads[0].UploadId != r.upID {
+				ev.Note = fmt.Sprintf("ListMultipartUploads shows %d uploads while exactly one (%s) is pending", len(d.Uploads), r.upID)
 			}
 		}
 	case "vput":
@@ -334,6 +367,12 @@ func c07Judge(cs c07Case, evs []c07Ev) (ds []disc, overlapping bool) {
 		case "delver-all":
 			if e.Status != 204 {
 				fail("delete-version-failed", "client %d op %d: %s", e.Client, e.Seq, e.Note)
+			}
+		case "lparts", "luploads":
+			if e.Status != 200 {
+				fail("multipart-listing-failed", "client %d op %d %s answered %d while the upload is pending", e.Client, e.Seq, e.Op.K, e.Status)
+			} else if e.Note != "" {
+				fail("multipart-listing-wrong", "client %d op %d: %s", e.Client, e.Seq, e.Note)
 			}
 		}
 	}
@@ -951,8 +990,13 @@ func c07Run(t *testing.T, c *evid.Collector) {
 				if cs.Versioned && op.K == "copy" {
 					op.K = "get"
 				}
-				if cs.Multipart && rapid.IntRange(0, 1).Draw(rt, "aspart") == 0 {
-					op = c07Op{K: "part", Part: rapid.IntRange(1, 4).Draw(rt, "part"), Size: rapid.SampledFrom([]int{1, 100, 40000}).Draw(rt, "psize")}
+				if cs.Multipart {
+					switch rapid.IntRange(0, 5).Draw(rt, "aspart") {
+					case 0, 1, 2:
+						op = c07Op{K: "part", Part: rapid.IntRange(1, 4).Draw(rt, "part"), Size: rapid.SampledFrom([]int{1, 100, 40000}).Draw(rt, "psize")}
+					case 3:
+						op = c07Op{K: rapid.SampledFrom([]string{"lparts", "lparts", "luploads"}).Draw(rt, "mlist")}
+					}
 				}
 				ops = append(ops, op)
 			}
@@ -1068,6 +1112,8 @@ func TestC07Race(t *testing.T) {
 					}
 					if cs.Multipart && i%2 == 0 {
 						op = c07Op{K: "part", Part: int((seed>>50)%3) + 1, Size: 100}
+					} else if cs.Multipart && (seed>>55)%3 == 0 {
+						op = c07Op{K: []string{"lparts", "luploads"}[(seed>>58)%2]}
 					}
 					ops = append(ops, op)
 				}
